@@ -217,6 +217,64 @@ def _eval_block(model, case):
     return {"detail": d, "nontrivial": nontriv, "tag": tag}
 
 
+ORIENTS = ((0, 1, 2, 3), (1, 0, 2, 3), (0, 1, 3, 2), (1, 0, 3, 2), (2, 3, 0, 1), (3, 2, 0, 1), (2, 3, 1, 0), (3, 2, 1, 0))
+
+
+def permuted(sh, perm):
+    """the same shell with its primitives (exponent, coefficient row) listed in the order `perm`"""
+    return XShell(sh.l, list(sh.coord), [sh.exps[i] for i in perm], [list(sh.coeffs[i]) for i in perm], sh.sph)
+
+
+def variant_shells(ss, v):
+    """the four shells of variant v = {"o": orientation number, "perms": [p1, p2, p3, p4]} in the order in which they
+    are handed to the implementation"""
+    o = ORIENTS[v["o"]]
+    pp = [permuted(ss[i], v["perms"][i]) for i in range(4)]
+    return [pp[i] for i in o]
+
+
+def _eval_illc(model, case):
+    """CONTRACTED shells whose primitives span tight and diffuse exponents: ONE exact block (command 20 on the
+    shells as listed in the case) against the implementation called on every variant = (one of the eight
+    orientations of the quartet, a listing order of the primitives of each shell), transposed back.  The exact block
+    does not depend on the variant: Props/C13.v C13_prim_perm_invariant_eri (permuting primitives) and
+    Props/C04_orient.v (the eight orientations), so one model evaluation serves all of them."""
+    from gbasis.integrals.electron_repulsion import ElectronRepulsionIntegral as ERI
+
+    ss = [XShell.from_json(s) for s in case["s"]]
+    tag = "illc %d%d%d%d K=%s" % (ss[0].l, ss[1].l, ss[2].l, ss[3].l, "".join(str(len(x.exps)) for x in ss))
+    res = model.call("(20 %s)" % " ".join(x.sx() for x in ss))
+    dab = _pair_diag(model, ss[0], ss[1])
+    dcd = _pair_diag(model, ss[2], ss[3])
+
+    def tol(idx):
+        return TOL_REL * math.sqrt(dab[idx[0]][idx[1]][idx[2]][idx[3]] * dcd[idx[4]][idx[5]][idx[6]][idx[7]])
+
+    nz = False
+    for v in case["variants"]:
+        o = ORIENTS[v["o"]]
+        vs = variant_shells(ss, v)
+        st, impl = call_impl(ERI.construct_array_contraction, *[x.to_gbasis() for x in vs])
+        if st != "ok":
+            return {"detail": {"kind": "rejected", "impl": impl, "variant": v}, "tag": tag}
+        impl = np.asarray(impl)
+        if impl.ndim == 8:      # axes (2k, 2k+1) belong to shell o[k]: back to the order of the case
+            pos = [o.index(i) for i in range(4)]
+            impl = np.transpose(impl, [ax for k in pos for ax in (2 * k, 2 * k + 1)])
+        d = fcompare(impl, res, tol)
+        if d is not None:
+            if d.get("kind") == "value":
+                d["rel_to_schwarz"] = d["abs_diff"] / d["tol"] * TOL_REL if d["tol"] > 0 else float("inf")
+                d["amplification_estimate"] = amplification(vs) * 2.0 ** -53
+            d["variant"] = v
+            d["shells_as_called"] = [x.to_json() for x in vs]
+            d["note"] = ("'index' refers to the shells in the order of the case (the implementation's result transposed "
+                         "back); the quartet was handed over as shells_as_called")
+            return {"detail": d, "nontrivial": True, "tag": tag, "stats": {"illc variants": len(case["variants"])}}
+        nz = nz or bool(np.any(impl != 0))
+    return {"detail": None, "nontrivial": nz, "tag": tag, "stats": {"illc variants": len(case["variants"])}}
+
+
 def _t_sx(T):
     return "()" if T is None else "(%s)" % sx(T)
 
@@ -281,8 +339,12 @@ def _eval_basis(model, case):
 
 
 def eval_case(model, case):
+    if case["kind"] == "boys":
+        return lib.eval_boys_case(case)
     if case["kind"] in ("block", "ill"):
         return _eval_block(model, case)
+    if case["kind"] == "illc":
+        return _eval_illc(model, case)
     if case["kind"] == "basis":
         return _eval_basis(model, case)
     raise ValueError(case["kind"])
@@ -313,7 +375,7 @@ def known(case, detail):
     quartets with exponents in 0.1..10 on one or two nearby centres the estimate stays below the tolerance."""
     if not _kf_text() or not isinstance(detail, dict) or detail.get("kind") != "value":
         return None
-    if case.get("kind") in ("block", "ill"):
+    if case.get("kind") in ("block", "ill", "illc"):
         amp = amplification([XShell.from_json(s) for s in case["s"]])
     elif case.get("kind") == "basis":
         basis = [XShell.from_json(s) for s in case["basis"]]
@@ -530,6 +592,126 @@ def ill_conditioned_list():
     return cases
 
 
+def _orders(exps):
+    """listing orders of the primitives of one shell: descending (tight -> diffuse, as in basis-set files), ascending,
+    and for K = 3 the two rotations that put the most diffuse primitive first / the tightest last"""
+    k = len(exps)
+    asc = sorted(range(k), key=lambda i: exps[i])
+    out = {"desc": asc[::-1], "asc": asc}
+    if k >= 3:
+        out["shuf1"] = [asc[0]] + asc[:0:-1]            # most diffuse first, then tight -> diffuse
+        out["shuf2"] = asc[1:-1] + [asc[0], asc[-1]]    # tightest last
+    return out
+
+
+def _illc_variants(ss, rng=None, nmax=None):
+    """every combination of listing orders (per DISTINCT shell: a shell that occurs twice is listed the same way both
+    times, as in a basis set) x the orientations given / bra-ket exchanged / both pairs reversed / exchanged and
+    reversed; with rng: a sample of nmax of them that always contains (all ascending, as given)"""
+    keys = []
+    for x in ss:
+        k = x.sx()
+        if k not in keys:
+            keys.append(k)
+    which = [keys.index(x.sx()) for x in ss]
+    ords = []
+    for k in keys:
+        sh = ss[[x.sx() for x in ss].index(k)]
+        ords.append(list(_orders([float(e) for e in sh.exps]).items()) if len(sh.exps) > 1 else [("k1", [0])])
+    out = []
+    for combo in itertools.product(*ords):
+        for o in (0, 4, 3, 7):
+            out.append({"o": o, "orders": [combo[w][0] for w in which], "perms": [list(combo[w][1]) for w in which]})
+    if rng is not None and nmax is not None and len(out) > nmax:
+        must = [v for v in out if v["o"] == 0 and all(n in ("asc", "k1") for n in v["orders"])]
+        rest = [v for v in out if v not in must]
+        out = must + rng.sample(rest, nmax - len(must))
+    return out
+
+
+def ill_contracted_list():
+    """FIXED (seed-independent) list: CONTRACTED shells (K = 2, 3) whose primitives span tight and diffuse exponents
+    (core s 98304 / 65536 with valence 1/4..1/2; p 8192 with 1/4; d 2 with 1/32; f 4 with 1/32, p 1 with 1/16), tight
+    pair against diffuse pair on the same / on another atom and interleaved, every listing order of the primitives of
+    every shell (descending, ascending, K = 3: two shuffles) x {as given, bra <-> ket, both pairs reversed, both}.  The
+    best-conditioned orientation must be found from the VALUES of the exponents, wherever they are listed."""
+    F = Fraction
+    at1 = [F(0), F(0), F(0)]
+    at2 = [F(1, 2), F(-1, 4), F(3, 4)]
+
+    def sh(l, c, exps, coeffs):
+        return XShell(l, c, [F(e) for e in exps], [[F(x)] for x in coeffs])
+
+    S2 = lambda c: sh(0, c, [98304, F(1, 4)], [F(1, 4), 1])
+    S2b = lambda c: sh(0, c, [65536, F(1, 2)], [F(1, 2), F(3, 4)])
+    S3 = lambda c: sh(0, c, [98304, 1536, F(3, 8)], [F(1, 8), F(1, 2), 1])
+    P2 = lambda c: sh(1, c, [8192, F(1, 4)], [F(1, 4), 1])
+    D2 = lambda c: sh(2, c, [2, F(1, 32)], [F(1, 2), 1])
+    F1 = lambda c: sh(3, c, [F(5, 16)], [1])
+    F2 = lambda c: sh(3, c, [4, F(1, 32)], [F(1, 2), 1])
+    Pd2 = lambda c: sh(1, c, [1, F(1, 16)], [F(1, 2), 1])
+    templates = [
+        ("s2 s2 | d2 d2 other-atom", [S2(at2), S2(at2), D2(at1), D2(at1)]),
+        ("s2 s2' | d2 d2 same-atom", [S2(at2), S2b(at2), D2(at2), D2(at2)]),
+        ("s3 s3 | d2 d2 other-atom", [S3(at2), S3(at2), D2(at1), D2(at1)]),
+        ("s2 s2 | f1 f1 other-atom", [S2(at2), S2(at2), F1(at1), F1(at1)]),
+        ("s2' s2' | pd2 f2 other-atom", [S2b(at2), S2b(at2), Pd2(at1), F2(at1)]),
+        ("s2 p2 | d2 d2 other-atom", [S2(at2), P2(at2), D2(at1), D2(at1)]),
+        ("s2 d2 | s2 d2 interleaved, two atoms", [S2(at2), D2(at1), S2(at2), D2(at1)]),
+    ]
+    cases = []
+    for name, ss in templates:
+        cases.append({"kind": "illc", "name": name, "s": [x.to_json() for x in ss], "variants": _illc_variants(ss)})
+    return cases
+
+
+def gen_wide_blocks(rng, n, lsum_max, cap):
+    """seed-dependent quartets of the same kind: tight-containing contracted shells (l 0/1, K 2-3, tightest exponent
+    within a factor 4 of exp_cap(l), most diffuse 0.1..1) against contracted diffuse shells (l 1..3, K 1-2, 0.03..4),
+    same / other atom, pair against pair or interleaved; 10 sampled variants (orders x orientations) each, always
+    containing `all ascending, as given`."""
+    cases = []
+    F = Fraction
+    while len(cases) < n:
+        at2 = rnd_centre(rng, 1)
+        at1 = at2 if rng.random() < 0.3 else rnd_centre(rng, 1)
+
+        def coef(k):
+            return [[F(rng.choice([-1, 1]) * rng.randint(2, 16), 8)] for _ in range(k)]
+
+        def tshell():
+            l = rng.choice([0, 0, 0, 1])
+            cap_l = lib.exp_cap(l)
+            ex = [short_float(rng, cap_l / 4, cap_l), short_float(rng, 0.1, 1.0)]
+            if rng.random() < 0.35:
+                ex.insert(1, short_float(rng, 2.0, cap_l / 16))
+            return XShell(l, at2, ex, coef(len(ex)))
+
+        def ushell(lmax):
+            l = rng.randint(1, max(1, lmax))
+            if rng.random() < 0.7:
+                ex = [short_float(rng, 0.5, 4.0), short_float(rng, 0.03, 0.12)]
+            else:
+                ex = [short_float(rng, 0.05, 0.6)]
+            return XShell(l, at1, ex, coef(len(ex)))
+
+        t1 = tshell()
+        t2 = t1 if rng.random() < 0.5 else tshell()
+        rem = lsum_max - t1.l - t2.l
+        if rem < 2:
+            continue
+        u1 = ushell(min(3, rem - 1))
+        u2 = u1 if (rng.random() < 0.5 and 2 * u1.l <= rem) else ushell(min(3, rem - u1.l))
+        if t1.l + t2.l + u1.l + u2.l > lsum_max or u1.l + u2.l < 3:
+            continue
+        ss = [t1, t2, u1, u2] if rng.random() < 0.8 else [t1, u1, t2, u2]
+        c = {"kind": "illc", "name": "seeded wide-range contraction", "s": [x.to_json() for x in ss],
+             "variants": _illc_variants(ss, rng, 10)}
+        if est_cost(c["s"]) <= cap:
+            cases.append(c)
+    return cases
+
+
 def basis_cost(shells, largest=False):
     js = [s.to_json() for s in shells]
     cs = [_call_cost([js[i], js[j], js[k], js[l]]) for (i, j, k, l) in canonical_quartets(len(js))]
@@ -593,12 +775,19 @@ def ill_basis_cases():
     c = [F(1, 2), F(-1, 4), F(3, 4)]
     s = XShell(0, c, [F(100000)], [[1]])
     d = XShell(2, c, [F(13, 256)], [[1]])
+    # contracted shells spanning tight and diffuse exponents, primitives listed diffuse -> tight, tight shell first
+    sc = XShell(0, c, [F(1, 4), F(98304)], [[1], [F(1, 4)]])
+    dc = XShell(2, c, [F(1, 32), F(2)], [[1], [F(1, 2)]], True)
     return [{"kind": "basis", "name": "ill core-s first", "basis": [s.to_json(), d.to_json()], "T": None, "notation": "chemist"},
-            {"kind": "basis", "name": "ill diffuse-d first", "basis": [d.to_json(), s.to_json()], "T": None, "notation": "physicist"}]
+            {"kind": "basis", "name": "ill diffuse-d first", "basis": [d.to_json(), s.to_json()], "T": None, "notation": "physicist"},
+            {"kind": "basis", "name": "ill contracted s (ascending) first", "basis": [sc.to_json(), dc.to_json()], "T": None,
+             "notation": "physicist"}]
 
 
 def case_cost(c):
-    if c["kind"] in ("block", "ill"):
+    if c["kind"] == "boys":
+        return 0.5
+    if c["kind"] in ("block", "ill", "illc"):
         return est_cost(c["s"])
     return basis_cost([XShell.from_json(s) for s in c["basis"]]) * (2 if c.get("T") is not None else 1)
 
@@ -607,8 +796,13 @@ def gen_cases(tier, seed):
     rng = random.Random(1000003 * seed + 4)
     cases = quick_blocks(rng) if tier == "quick" else thorough_blocks(rng)
     cases += ill_conditioned_list()
+    cases += ill_contracted_list()
+    cases += gen_wide_blocks(random.Random(1000003 * seed + 444), 4 if tier == "quick" else 40,
+                             4 if tier == "quick" else 6, 8.0 if tier == "quick" else 40.0)
     cases += ill_basis_cases()
     cases += gen_basis_cases(random.Random(1000003 * seed + 44), tier)
+    # the Boys function itself: orders 0..12 (four f shells), arguments 0, 5e-324 .. 1e6
+    cases += lib.boys_cases(seed, 12, "eri")
     return cases
 
 
@@ -616,6 +810,15 @@ def gen_cases(tier, seed):
 # shrinking
 # ----------------------------------------------------------------------------------------------
 def shrink_case(case):
+    if case["kind"] == "boys":
+        for c in lib.shrink_boys_case(case):
+            yield c
+        return
+    if case["kind"] == "illc":
+        ss = [XShell.from_json(x) for x in case["s"]]
+        for v in case["variants"]:
+            yield {"kind": "block", "geom": "illc variant", "s": [x.to_json() for x in variant_shells(ss, v)]}
+        return
     if case["kind"] in ("block", "ill"):
         for pos in range(4):
             for t in shrink_shell_json(case["s"][pos]):
@@ -657,7 +860,7 @@ def run(rep, tier, seed, model, replay):
     # memory classes by the largest single model call (about 70 MB per second of evaluation, the estimate can be
     # low by a factor 3): > 18 s run 4 at a time, 10..18 s 8 at a time, the rest 16 at a time
     def mclass(c):
-        if c["kind"] not in ("block", "ill"):
+        if c["kind"] not in ("block", "ill", "illc"):
             return 2
         m = max(_calls(c["s"]))
         return 0 if m > 18.0 else (1 if m > 10.0 else 2)
@@ -672,6 +875,7 @@ def run(rep, tier, seed, model, replay):
             run_cases(rep, group, eval_case, shrinkfn=shrink_case, known=known, nproc=min(nproc, len(group)))
     if replay is None:
         rep.dist["stat:ill_conditioned_list"] = sum(1 for c in cases if c["kind"] == "ill")
+        rep.dist["stat:ill_contracted_list"] = sum(1 for c in cases if c["kind"] == "illc" and c.get("name", "").find("seeded") < 0)
         rep.dist["stat:cases_run_4_at_a_time"] = len(groups[0])
         rep.dist["stat:cases_run_8_at_a_time"] = len(groups[1])
 
